@@ -667,8 +667,13 @@ def suite_resamplers(ctx):
                 sl_y, sl_x = np.asarray(rs.slices_y), np.asarray(rs.slices_x)
                 with np.errstate(all="ignore"):
                     expv = np.stack([(w * stack[k].astype(float)[sl_y, sl_x]).sum(1) for k in range(nb)])
+                    # rounding scales with the magnitudes that are added, not with their sum: four pixels of +-1e13 whose weighted sum nearly
+                    # cancels carry an absolute error of eps(dtype) * 1e13 in a result near zero
+                    mag = np.stack([(np.abs(w) * np.abs(stack[k].astype(float)[sl_y, sl_x])).sum(1) for k in range(nb)])
                 expv_full = np.stack([full(expv[k], np.nan) for k in range(nb)])
-                dif = got & (np.abs(res3 - expv_full) > 1e-6 * (1 + np.abs(expv_full)))
+                mag_full = np.stack([full(mag[k], np.nan) for k in range(nb)])
+                eps_d = float(np.finfo(dtype).eps) if np.issubdtype(np.dtype(dtype), np.floating) else 0.0
+                dif = got & (np.abs(res3 - expv_full) > 1e-6 * (1 + np.abs(expv_full)) + 16 * eps_d * mag_full)
                 if dif.any():
                     idx = tuple(map(int, np.argwhere(dif)[0]))
                     ctx.fail("bilinear.NumpyBilinearResampler.get_sample_from_bil_info", f"value at {idx} is {res3[idx]} but weights . four stored pixels = {expv_full[idx]}",
